@@ -1,13 +1,13 @@
 CONSTANTS
   N = 4
-  MaxFan = 3
-  KindSet <- KindsCycle
+  MaxFan = 2
+  KindSet <- KindsCyc3
   GenFans <- Fans01
-  Budgets <- BudgetsQ
+  Budgets <- BudgetsOne
   MaxDepth = 3
-  MaxQ = 4
-  MaxChase = 3
-  MaxDname = 2
+  MaxQ = 32
+  MaxChase = 10
+  MaxDname = 10
   TcpNotDebited = FALSE
   ShadowRejects = FALSE
   LeakBudgetFailure = FALSE
